@@ -73,8 +73,33 @@ static std::string step(const std::vector<std::string>& w) {
   }
   if (op == "copy") {
     Obj& o = objs.at(atoi(w[1].c_str()));
-    if (!o.sk) throw std::runtime_error("not a sketch");
-    Obj n; n.seed = o.seed; n.sk.reset(new cpc_sketch(*o.sk));
+    Obj n; n.seed = o.seed;
+    if (o.sk) n.sk.reset(new cpc_sketch(*o.sk)); else n.un.reset(new cpc_union(*o.un));
+    int nid = atoi(w[2].c_str());
+    objs[nid] = std::move(n);
+    if (objs[nid].sk) return observe(*objs[nid].sk);
+    return observe(objs[nid].un->get_result());
+  }
+  if (op == "unew") {
+    int id = atoi(w[1].c_str());
+    uint64_t seed = strtoull(w[3].c_str(), nullptr, 10);
+    Obj o; o.seed = seed;
+    o.un.reset(new cpc_union((uint8_t)atoi(w[2].c_str()), seed));
+    objs[id] = std::move(o);
+    return observe(objs[id].un->get_result());
+  }
+  if (op == "uupd") {   // uupd <union> <sketch> [rvalue]
+    Obj& u = objs.at(atoi(w[1].c_str()));
+    if (!u.un) throw std::runtime_error("not a union");
+    cpc_sketch& s = sk_at(w[2]);
+    if (w.size() > 3 && w[3] == "rvalue") { cpc_sketch tmp(s); u.un->update(std::move(tmp)); }
+    else u.un->update(s);
+    return observe(u.un->get_result());
+  }
+  if (op == "ures") {
+    Obj& u = objs.at(atoi(w[1].c_str()));
+    if (!u.un) throw std::runtime_error("not a union");
+    Obj n; n.seed = u.seed; n.sk.reset(new cpc_sketch(u.un->get_result()));
     int nid = atoi(w[2].c_str());
     objs[nid] = std::move(n);
     return observe(*objs[nid].sk);
